@@ -37,6 +37,28 @@ pub fn run(tier: &str, seed: u64, dir: &str) {
             let op = h.done();
             sink.case(&op, &eval(&op), "ack-after-several-downlinks", true);
         }
+        // … and the orders in which a Class C reception precedes the Class A window that ends the
+        // procedure: [RXC?] RX1|RX2 [RXC?], each confirmed or not
+        for shape in 0..4u32 {
+            for bits in 0..8u32 {
+                let mut h = Hist::new("C12", region, 20, 0, 100 + (shape * 8 + bits) as u64, &[], None);
+                h.go_live();
+                h.abp();
+                h.send(1, bits & 1 != 0, &[7]);
+                if shape & 1 != 0 {
+                    h.rx_auth("rxc", 0, 1, bits & 1 != 0, &[], Some(3), &[2]);
+                }
+                h.rx_auth(if shape & 2 != 0 { "rx2" } else { "rx1" }, 0, 1, bits & 2 != 0, &[], None, &[]);
+                if bits & 4 != 0 {
+                    h.rx_auth("rxc", 0, 1, false, &[], Some(4), &[3]);
+                }
+                h.send(1, false, &[8]).timeout();
+                h.send(1, false, &[9]).timeout();
+                h.snap();
+                let op = h.done();
+                sink.case(&op, &eval(&op), "ack-after-several-downlinks", true);
+            }
+        }
         let n = if thorough { 500 } else { 30 };
         for i in 0..n {
             let drs = uplink_drs(region);
@@ -74,6 +96,15 @@ pub fn run(tier: &str, seed: u64, dir: &str) {
                             h.timeout();
                         } else if let Some(f) = hint {
                             h.last_down = Some(f);
+                        }
+                    }
+                    4 => {
+                        // a Class C reception during the receive procedure, then the Class A window
+                        h.rx_auth("rxc", 0, 1, rng.chance(1, 2), &[], Some(3), &[2]);
+                        if rng.chance(1, 2) {
+                            h.rx_auth(if rng.chance(1, 2) { "rx1" } else { "rx2" }, 0, 1, rng.chance(1, 2), &[], None, &[]);
+                        } else {
+                            h.timeout();
                         }
                     }
                     2 | 3 => {
